@@ -80,6 +80,11 @@ CHECKS = {
         technique='same path-exhaustive exploration for the per-statement read/modified/deleted inclusion; concrete comparison of per-function name classes with CPython symtable (stated as concrete)',
         text='Second conjunct (solver-explored): for every executed statement instance on every explored path, names actually read are in Scope.read and names actually rebound/deleted are in modified/deleted of that statement. First conjunct: bound locals, globals, nonlocals, parameters per function equal CPython symtable classification (concrete set comparison per program).',
         note='The first conjunct is a concrete comparison (no solver quantifier); claimed as a side condition only. Comprehension targets / except names / lambda bodies outside.'),
+    'C11': dict(
+        level='translation_validation', engine='xh-diff', design='DESIGN.md §2 C11',
+        technique='CrossHair (z3) differential execution of converted programs whose identifiers are renamed adversarially to the converter vocabulary; solver-exhausted unit harness on Namer.new_symbol',
+        text='C01-class programs with every user identifier renamed to a name the converter likes to generate (plus one write-only local and one read-only global from the vocabulary) still convert and behave identically for all inputs within the bounds; Namer.new_symbol never returns a name from the namespace, the reserved set or its own history, for all subsets of a per-root universe.',
+        note='Identifier assignments are seeded random. Concrete side condition (scope-exact comparison of generated names with user identifiers) only for programs without nested user scopes. A user variable named ag__ is outside.'),
 }
 
 NOT_APPLICABLE = {
